@@ -352,6 +352,15 @@ def _s6_map_columns_order(program, res):
                         renames[0].stmt)
 
 
+def _row_columns_is_keys_then_content(program) -> bool:
+    """RecordSpecification.__init__: row_columns = record_keys + <content keys> and content_keys = <the same list>"""
+    init = program.method("cdata", "RecordSpecification", "__init__", inherited=False)
+    rc = [st.value for st in ast.walk(init.node) if isinstance(st, ast.Assign) and unparse(st.targets[0]) == "self.row_columns"]
+    ck = [st.value for st in ast.walk(init.node) if isinstance(st, ast.Assign) and unparse(st.targets[0]) == "self.content_keys"]
+    return len(rc) == 1 and len(ck) == 1 and isinstance(rc[0], ast.BinOp) and isinstance(rc[0].op, ast.Add) and unparse(rc[0].left) == "self.record_keys" \
+        and unparse(rc[0].right) == unparse(ck[0])
+
+
 def _s7_record_transform_columns(program, res):
     """blocks -> row records: the declared result columns are blocks_in.row_columns (all value cells of the control table); the data-frame
     implementations build one column group per key level *observed in the data*, so each return has to lay the result out by row_columns"""
@@ -369,6 +378,10 @@ def _s7_record_transform_columns(program, res):
             n += 1
             v = r.stmt.value
             direct = f"{spec}.{field}" in unparse(v)
+            if not direct and field == "row_columns" and _row_columns_is_keys_then_content(program):
+                tv = unparse(v)
+                i_k, i_c = tv.find(f"{spec}.record_keys"), tv.find(f"{spec}.content_keys")
+                direct = 0 <= i_k < i_c  # record keys, then content keys: row_columns spelled out
             laid = False
             if isinstance(v, ast.Name):
                 # last assignment(s) to the returned name select / reindex by row_columns
@@ -392,8 +405,8 @@ def _s7_record_transform_columns(program, res):
                     res.fail_at("C08-S7", m, "block-record-columns-keys-first",
                                 f"{cls}.rowrecs_to_blocks returns `{unparse(v)}`: record keys, control keys, then the value columns — the declared order is the control table's "
                                 f"own column order (control table v1,key,v2: declared id,v1,key,v2, returned id,key,v1,v2)", r.stmt)
-        if n < 2:
-            raise AnalysisError(f"{cls}.{mname}: expected the empty-input return and the main return")
+        if n < 1:
+            raise AnalysisError(f"{cls}.{mname}: no return of a frame found")
 
 
 
@@ -571,6 +584,27 @@ def _s8_empty_request(program, res, rule="C08-S8"):
     res.expect_count(rule, "SQLModel methods taking `using`", n, 10)
 
 
+def _s9_join_terms_qualified(program, res, rule="C08-S9"):
+    """a join's FROM clause may hold a physical table as it stands (a table step whose description is requested whole is not wrapped in a select), and
+    a physical table may have columns its description does not list: every select term of the join therefore has to name the side it reads"""
+    m = program.method("sql_model", "SQLModel", "natural_join_to_near_sql", inherited=False)
+    res.analysed(m)
+    stores = [st for st in ast.walk(m.node) if isinstance(st, ast.Assign) and len(st.targets) == 1 and isinstance(st.targets[0], ast.Subscript)
+              and unparse(st.targets[0].value) == "terms"]
+    if len(stores) < 2:
+        raise AnalysisError("natural_join_to_near_sql: the stores of the pass-through terms were not found")
+    for st in stores:
+        v = st.value
+        if isinstance(v, ast.Constant) and v.value is None:
+            res.fail_at(rule, m, "join-term-unqualified",
+                        f"`{unparse(st)}` leaves the column to be emitted by its bare name: L(k,v) left-joined with a table R described as (k,w) that physically also has a "
+                        f"column v fails on SQLite with 'ambiguous column name: v' (Pandas and Polars evaluate it)", st)
+        elif any(isinstance(x, ast.Name) and x.id.endswith("_qqn") for x in ast.walk(v)):
+            res.ok(rule, f"`{unparse(st)[:70]}` names the side")
+        else:
+            res.abstain(rule, f"join term `{unparse(st)[:60]}`", "neither a bare pass-through nor a side-qualified name")
+
+
 def _empty_test(c: ast.Compare) -> bool:
     """len(x) < 1, len(x) <= 0, len(x) == 0"""
     if len(c.ops) != 1 or not isinstance(c.comparators[0], ast.Constant):
@@ -600,3 +634,5 @@ def run(program, res, tier):
     _s7b_sql_record_columns(program, res)
     res.rule("C08-S8", "SQL: a step asked for no column (only its rows are needed) is translated, not refused")
     _s8_empty_request(program, res)
+    res.rule("C08-S9", "SQL: the select terms of a join name the side they read")
+    _s9_join_terms_qualified(program, res)
